@@ -4,10 +4,16 @@ import encoder_corr
 META = {
     "lean_modules": ["QVerif.Props.C01"],
     "drivers": ["Encoder"],
-    "theorems": ['QVerif.Encoder.energy_decoded', 'QVerif.Encoder.energy_feasible', 'QVerif.Encoder.energy_decoded_infeasible', 'QVerif.Encoder.energy_lower', 'QVerif.Encoder.energy_undecodable', 'QVerif.Encoder.feasible_below_infeasible', 'QVerif.Encoder.feasible_below_infeasible_boundary', 'QVerif.Encoder.makespanTerm_pos', 'QVerif.Encoder.abel_bound', 'QVerif.Encoder.viability_eq', 'QVerif.Encoder.incidences_bound', 'QVerif.DoubleCount.incidences_eq'],
+    "theorems": [
+        "QVerif.Encoder.hamiltonian_operator_eigenvalue",
+        "QVerif.Encoder.eval_normalize",
+        'QVerif.Encoder.energy_decoded', 'QVerif.Encoder.energy_feasible', 'QVerif.Encoder.energy_decoded_infeasible', 'QVerif.Encoder.energy_lower', 'QVerif.Encoder.energy_undecodable', 'QVerif.Encoder.feasible_below_infeasible', 'QVerif.Encoder.feasible_below_infeasible_boundary', 'QVerif.Encoder.makespanTerm_pos', 'QVerif.Encoder.abel_bound', 'QVerif.Encoder.viability_eq', 'QVerif.Encoder.incidences_bound', 'QVerif.DoubleCount.incidences_eq'],
     "level": "proof",
     "level_text": 'Proof (exact rationals, model Model/Encoder.lean): for every instance, limit >= longest job, penalties in the documented regime and every basis state: if every start-time variable decodes, the energy is exactly (#out-of-order consecutive pairs) x P_prec + (#overlapping pairs on a machine) x P_ovl + an optimisation part in [0, W] (energy_decoded, energy_feasible, energy_decoded_infeasible, violations counted on the decoded start times); on EVERY state the energy is >= 2 P_enc x (number of reverse domain walls) (energy_lower: pair penalties never outweigh the viability terms weighted by max constraint count + 1 - double counting + Abel summation), hence >= P_enc when some variable is undecodable (energy_undecodable); feasible states are strictly below all infeasible ones when W < P_prec, P_ovl (feasible_below_infeasible) and also on the boundary W = P_c of the regime — the defaults — when the makespan share is positive and some job has an operation (feasible_below_infeasible_boundary: the optimisation part of every decoded state is then strictly positive, makespanTerm_pos, and an undecodable state costs >= 2 P_enc).',
-    "level_note": "Trusted: Lean kernel + standard axioms; hand-written exact-rational model tied to the float implementation by comparing ALL 2^n eigenvalues of "
+    "level_note": "Trusted: Lean kernel + standard axioms; hand-written exact-rational model tied to the float implementation (i) as an OPERATOR: the implementation's coefficient "
+    "table (Z positions -> coefficient) against the canonical table of Model/EncoderPoly.lean, which mirrors value_term / viability_term / the constraint and optimisation terms "
+    "construction by construction and is PROVED to evaluate to the model's eigenvalue function on every basis state (hamiltonian_operator_eigenvalue, eval_normalize) — equal tables "
+    "are equal eigenvalues on all 2^n states, at any qubit count (compared up to 70 qubits); and (ii) by comparing ALL 2^n eigenvalues of "
     "get_problem_hamiltonian() with the model (tolerance 1e-9 x sum |coefficients|) on generated instances; Qiskit SparsePauliOp arithmetic on I/Z strings. "
     "Float effects (loss of strictness for large limit - makespan, overflow of (n+1)^limit) are outside the model.",
     "rule": "cases = instances (1-4 jobs, 1-4 machines, durations 1-3, degenerate shapes) x limits x penalty configurations of the documented regime (defaults, "
